@@ -346,6 +346,8 @@ struct SSGen {
         if (on("avt-ns")) perNode += "<o f=\"avt-ns\" n=\"{@id}\"><xsl:element name=\"px:e\" namespace=\"{concat('urn:x-dyn-', namespace-uri())}\"/><xsl:element name=\"{name()}\"/></o>";
         if (on("message")) perNode += "<xsl:if test=\"@v = 7\"><xsl:message>note <xsl:value-of select=\"@id\"/></xsl:message></xsl:if>";
         if (on("sort2")) perNode += "<o f=\"sort2\" n=\"{@id}\"><xsl:for-each select=\"*\"><xsl:sort select=\"@k\" order=\"descending\"/><xsl:sort select=\"@v\" data-type=\"number\"/><xsl:value-of select=\"@id\"/>,</xsl:for-each>|<xsl:for-each select=\"*\"><xsl:sort select=\"name()\" case-order=\"upper-first\" lang=\"en\"/><xsl:value-of select=\"@id\"/>,</xsl:for-each></o>";
+        // processing-instruction data and comment text longer than the pooled string's first capacity (1024) that need the "?>" / "--" fix-up
+        if (on("comment-pi")) perNode += "<xsl:if test=\"not(ancestor::*)\"><o f=\"comment-pi-long\" n=\"{@id}\"><xsl:processing-instruction name=\"big\">" + std::string(1100, 'x') + "?><xsl:value-of select=\"@id\"/>?>?>tail</xsl:processing-instruction><xsl:comment>" + std::string(1100, 'y') + "--<xsl:value-of select=\"@id\"/>---</xsl:comment><xsl:processing-instruction name=\"small\">a?>b</xsl:processing-instruction></o></xsl:if>";
         if (on("comment-pi")) perNode += "<o f=\"comment-pi\" n=\"{@id}\"><xsl:comment>c <xsl:value-of select=\"@id\"/></xsl:comment><xsl:processing-instruction name=\"tgt\">d <xsl:value-of select=\"@k\"/></xsl:processing-instruction><m>pre<xsl:value-of select=\"@k\"/><xsl:comment>in</xsl:comment>mid<xsl:processing-instruction name=\"tgt2\">e</xsl:processing-instruction>post<i/>tail<xsl:comment/><xsl:comment>a---b----<xsl:value-of select=\"@k\"/>-</xsl:comment><xsl:comment>--</xsl:comment><xsl:comment>-<xsl:value-of select=\"substring('-----', 1, count(*))\"/></xsl:comment></m></o>";
         if (on("exslt-set")) perNode += o("exslt-set", vo("count(set:distinct(*/@k))") + "," + vo("count(set:difference(*, *[@v]))") + "," + vo("count(set:intersection(*, *[@k]))") + "," + vo("set:has-same-node(*, *[1])") + "," + vo("count(set:leading(*, *[3]))") + "," + vo("count(set:trailing(*, *[2]))"));
         if (on("exslt-math")) perNode += o("exslt-math", vo("math:max(*/@v)") + "," + vo("math:min(*/@v)") + "," + vo("count(math:highest(*/@v))") + "," + vo("math:abs(@v)") + "," + vo("math:sqrt(16)") + "," + vo("math:power(2, 10)"));
